@@ -137,6 +137,9 @@ func (st *Store) SetBalance(addr keys.Address, coin Coin) error {
 }
 
 func (st *Store) AddToAddress(addr keys.Address, coin Coin) error {
+	if !coin.IsValid() {
+		return errors.Wrapf(ErrInvalidCoin, "add to address: %s", addr.String())
+	}
 	key := storage.StoreKey(addr.String() + storage.DB_PREFIX + coin.Currency.Name)
 
 	amt, err := st.get(key)
@@ -153,6 +156,9 @@ func (st *Store) AddToAddress(addr keys.Address, coin Coin) error {
 }
 
 func (st *Store) MinusFromAddress(addr keys.Address, coin Coin) error {
+	if !coin.IsValid() {
+		return errors.Wrapf(ErrInvalidCoin, "minus from address: %s", addr.String())
+	}
 	key := storage.StoreKey(addr.String() + storage.DB_PREFIX + coin.Currency.Name)
 
 	amt, err := st.get(key)
@@ -172,6 +178,9 @@ func (st *Store) MinusFromAddress(addr keys.Address, coin Coin) error {
 }
 
 func (st *Store) CheckBalanceFromAddress(addr keys.Address, coin Coin) error {
+	if !coin.IsValid() {
+		return errors.Wrapf(ErrInvalidCoin, "check balance of address: %s", addr.String())
+	}
 	key := storage.StoreKey(addr.String() + storage.DB_PREFIX + coin.Currency.Name)
 
 	amt, err := st.get(key)
